@@ -16,6 +16,7 @@ D6 == "D6-compound-assignment-target-evaluated-twice"
 D10 == "D10-temporary-shared-across-activations"
 D20 == "D20-apply-extra-arguments-handed-to-hook"
 D21 == "D21-optional-call-loses-receiver"
+D25 == "D25-lowered-chain-as-callee-loses-this"
 D22 == "D22-arguments-evaluated-before-absent-callee-throws"
 D24 == "D24-literal-spread-iterated-after-later-arguments"
 D7b == "D7b-nonconstant-sum-operand-omitted"
@@ -51,6 +52,7 @@ Judge(r) ==
      ELSE IF D7b \in sdev THEN Verdict(r.rid, "C01", "dev", {D7b})
      ELSE IF D10 \in sdev /\ r.reenter THEN Verdict(r.rid, "C01", "dev", {D10})
      ELSE IF D21 \in sdev THEN Verdict(r.rid, "C01", "dev", {D21})
+     ELSE IF D25 \in sdev THEN Verdict(r.rid, "C01", "dev", {D25})
      ELSE IF D22shape THEN Verdict(r.rid, "C01", "dev", {errDev})
      ELSE Verdict(r.rid, "C01", "reject", <<r.sid, why>>)
   \* ---- C03 (dynamic half)
@@ -62,14 +64,14 @@ Judge(r) ==
   /\ IF ~r.reenter THEN Verdict(r.rid, "C06", "na", r.sid)
      ELSE IF why = "" \/ callReadVsArgs THEN Verdict(r.rid, "C06", IF Len(r.hooks) > 0 THEN "ok" ELSE "ok0", r.sid)
      ELSE IF D10 \in sdev THEN Verdict(r.rid, "C06", "dev", {D10})
-     ELSE IF D6 \in sdev \/ D7b \in sdev \/ D21 \in sdev \/ D22shape THEN Verdict(r.rid, "C06", "na", "D6 / D7b / D21 / D22, see C01")
+     ELSE IF D6 \in sdev \/ D7b \in sdev \/ D21 \in sdev \/ D25 \in sdev \/ D22shape THEN Verdict(r.rid, "C06", "na", "D6 / D7b / D21 / D25 / D22, see C01")
      ELSE Verdict(r.rid, "C06", "reject", <<r.sid, why>>)
   \* ---- C05 (dynamic half): the file's own prologue provides every configured hook
   /\ IF r.late THEN
        \* the file ran before the tracer installed its hooks: its prologue must have provided the hook object,
        \* and the code must behave the same once real hooks are put into that object
        IF r.outout.k # "syntax" /\ ~r.late_found THEN Verdict(r.rid, "C05", "reject", "no hook object after loading the file: later hook installation has nothing to extend")
-       ELSE IF why # "" /\ ~(D6 \in sdev) /\ ~(D7b \in sdev) /\ ~(D21 \in sdev) /\ ~D22shape THEN Verdict(r.rid, "C05", "reject", <<"hooks installed after load", why>>)
+       ELSE IF why # "" /\ ~(D6 \in sdev) /\ ~(D7b \in sdev) /\ ~(D21 \in sdev) /\ ~(D25 \in sdev) /\ ~D22shape THEN Verdict(r.rid, "C05", "reject", <<"hooks installed after load", why>>)
        ELSE Verdict(r.rid, "C05", IF Len(r.hooks) > 0 THEN "ok" ELSE "ok0", "hooks installed after load")
      ELSE IF ~r.absent THEN
        \* a hook object that exists before the file is loaded must not be replaced by the file's prologue
@@ -78,7 +80,7 @@ Judge(r) ==
      ELSE IF ~r.ns_exists THEN Verdict(r.rid, "C05", "reject", "the prologue did not install the hook namespace")
      ELSE IF {r.ns_keys[i] : i \in 1..Len(r.ns_keys)} # {r.alldsts[i] : i \in 1..Len(r.alldsts)}
           THEN Verdict(r.rid, "C05", "reject", <<"prologue defines", r.ns_keys, "configured", r.alldsts>>)
-     ELSE IF why # "" /\ ~callReadVsArgs /\ ~(D6 \in sdev) /\ ~(D7b \in sdev) /\ ~(D21 \in sdev) /\ ~D22shape /\ ~(D10 \in sdev /\ r.reenter)
+     ELSE IF why # "" /\ ~callReadVsArgs /\ ~(D6 \in sdev) /\ ~(D7b \in sdev) /\ ~(D21 \in sdev) /\ ~(D25 \in sdev) /\ ~D22shape /\ ~(D10 \in sdev /\ r.reenter)
           THEN Verdict(r.rid, "C05", "reject", <<"with the file's own pass-through hooks", why>>)
      ELSE Verdict(r.rid, "C05", "ok", Len(r.ns_keys))
 
